@@ -156,9 +156,11 @@ def extra_documents(ctx):
     yield {"fixture": "eml.xml-trimmed"}, small
     # other rules that allow references
     al = node("attributeList", None, [["id", "al1"]], [node("attribute", None, [["id", "at1"]], [node("attributeName", "a"), node("attributeDefinition", "d")]),
-                                                     node("attribute", None, [], [node("references", "at1")])])
+                                                     node("attribute", None, [], [node("attributeName", "b"), node("attributeDefinition", "e")])])
     dt1 = node("dataTable", None, [["id", "dt1"]], [node("entityName", "t1"), al])
     dt2 = node("dataTable", None, [], [node("entityName", "t2"), node("attributeList", None, [], [node("references", "al1")])])
+    dt3 = node("dataTable", None, [], [node("entityName", "t3"), node("attributeList", None, [], [node("attribute", None, [], [node("references", "at1")])])])
+    yield {"special": "attribute"}, node("dataset", None, [], [node("title", "t"), dt3, copy.deepcopy(dt1)])
     oe = node("otherEntity", None, [], [node("references", "dt1x")])
     yield {"special": "attributeList"}, node("dataset", None, [], [node("title", "t"), dt1, dt2])
     yield {"special": "dangling-entity"}, node("dataset", None, [], [node("title", "t"), dt1, oe])
@@ -189,6 +191,8 @@ def faulted(ctx, tags, t):
     have = [n for n, _, _ in walk(t) if any(a[0] == "id" for a in n["attrs"])]
     if not have:
         return
+    if ctx.tier != "thorough" and len(carriers) > 3:
+        carriers = sorted(rng.sample(carriers, 3))
     for c in carriers:
         u = copy.deepcopy(t)
         n = list(walk(u))[c][0]
